@@ -2292,6 +2292,19 @@ pub mod simfs {
                 }
             }
         }
+        /// `File::set_modified` (round 17, control `v16_r3`: cache entries refreshed on use)
+        pub fn set_modified(&self, t: super::simtime::SystemTime) -> io::Result<()> {
+            match self.cur_key() {
+                Some(key) => {
+                    world::with(|w| {
+                        w.mtimes.insert(key, t.nanos());
+                    });
+                    Ok(())
+                }
+                // a handle opened for reading on a file of the image: its time is the checkout's
+                None => Ok(()),
+            }
+        }
         /// `File::lock`: exclusive advisory lock, waits
         pub fn lock(&self) -> io::Result<()> {
             self.take_lock(true, true).map_err(|_| io::Error::from(io::ErrorKind::WouldBlock))
@@ -3664,6 +3677,9 @@ pub mod simtime {
         pub const UNIX_EPOCH: SystemTime = SystemTime(0);
         pub(crate) fn from_nanos(n: u64) -> SystemTime {
             SystemTime(n)
+        }
+        pub(crate) fn nanos(&self) -> u64 {
+            self.0
         }
         pub fn now() -> SystemTime {
             SystemTime(world::with(|w| w.read_clock()))
